@@ -69,6 +69,24 @@ def alloc(ex):
     return g['alloc.Msg']
 
 
+def ghost_init(st, sc):
+    st.ghost.setdefault('alloc.Msg', SetS(Msg).fresh('alloc.Msg'))
+
+
+def alloc_on_yield(ex):
+    """other tasks may allocate new messages while this one is suspended; none is freed"""
+    old = ex.st.ghost['alloc.Msg']
+    new = SetS(Msg).fresh('alloc.Msg')
+    ex.st.ghost['alloc.Msg'] = new
+    ex.assume(old.subset(new))
+
+
+def alloc_inv(s, p):
+    m = getattr(s, p)
+    a = s.ghost('alloc.Msg')
+    return forall(lambda u: implies(m._messages.has(u), a.has(m._messages[u])))
+
+
 def _set_attr(ex, ref, attr, value):
     ex.st.heap_get(ref, attr)
     ex.st.write(('heap', ref.sort.name, attr, ref.t), value)
@@ -141,3 +159,11 @@ GLOBALS = {'Seen': FLAG_SEEN}
 
 def flags_requires():
     return [('flags_distinct', lambda s: VBool(FLAGS_DISTINCT))]
+
+
+def _bind_pyclasses():
+    from pymap.backend.dict.mailbox import Message
+    Msg.pyclass = Message
+
+
+_bind_pyclasses()
